@@ -104,8 +104,12 @@ def step (d : DSt) (n : Nat) (line : String) : DSt × Option String :=
   | "BALANCE" :: fs =>
     match parseSH fs with
     | some r =>
-      let (s', x) := balance (cfg d) d.s r
-      finish d n line s' (respTag x) out ("balance." ++ respTag x)
+      let (resp, lb) := match toks out with
+        | [a, b] => (a, b)
+        | [a] => (a, "-")
+        | _ => ("?", "-")
+      let (s', x) := balance (cfg d) d.s r (lb != "0")
+      finish d n line s' (respTag x) resp ("balance." ++ respTag x ++ (if lb == "0" then ".ledger-failed" else ""))
     | none => bad d "bad BALANCE"
   | "SAVED" :: fs =>
     match parseSH fs with
